@@ -126,6 +126,11 @@ func translateFunc(p *Pkg, key string, fd *ast.FuncDecl, isInit bool) *Func {
 			ft.write(unknownSet.copy(), "")
 		}
 	}
+	if ft.putEscapes() {
+		// an object that is in the pool is also reachable by the caller (returned or
+		// stored): a later Get() of some other call would hand out a shared object
+		ft.write(unknownSet.copy(), "")
+	}
 	f.Body = ft.body
 	f.Sum = ft.summary(f.NParams)
 	return f
@@ -145,6 +150,44 @@ func translateVarInits(p *Pkg) *Func {
 		}
 	}
 	return &Func{Name: ft.name, IsInit: true, Body: ft.body, Sum: Summary{Ret: RootSet{}, Stores: map[int]RootSet{}}}
+}
+
+// exportedFuncVars: an exported package-level variable that holds a function
+// (`var Wipe = func(a *big.Int) {..}`) is part of the exported surface.  A
+// function literal initialiser is analysed as the exported function
+// "pkg.Name"; any other exported variable of function type (declared type, or
+// initialised with a named function) cannot be followed: effgen stops.
+func exportedFuncVars(p *Pkg) error {
+	for _, vs := range p.VarDecl {
+		for i, n := range vs.Names {
+			if !n.IsExported() {
+				continue
+			}
+			var val ast.Expr
+			if len(vs.Values) == len(vs.Names) {
+				val = strip(vs.Values[i])
+			}
+			if lit, ok := val.(*ast.FuncLit); ok {
+				fd := &ast.FuncDecl{Name: &ast.Ident{Name: n.Name}, Type: lit.Type, Body: lit.Body}
+				f := translateFunc(p, p.Dir+"."+n.Name, fd, false)
+				funcMemo[f.Name] = f
+				funcOrder = append(funcOrder, f)
+				continue
+			}
+			isFunc := false
+			if vs.Type != nil {
+				_, isFunc = (Type{E: vs.Type, Pkg: p.Dir}).under().E.(*ast.FuncType)
+			}
+			if id, ok := val.(*ast.Ident); ok && p.Funcs[id.Name] != nil {
+				isFunc = true
+			}
+			if isFunc {
+				return fmt.Errorf("%s: exported variable %s.%s holds a function that is not a literal (unsupported: its callers cannot be followed)",
+					prog.Fset.Position(n.Pos()), p.Dir, n.Name)
+			}
+		}
+	}
+	return nil
 }
 
 // promotedExported: the unexported types of p that are embedded (directly or
